@@ -75,10 +75,8 @@ func Harness_C19_reader() {
 	key := symString(VerifIntRange(0, 2))
 	oid := make([]byte, rd.hashSize)
 	oid[0] = 3
-	var res [2]string
 	VerifFreeze(rd)
-	VerifShared(func(i int) { res[i] = readWorkload(rd, key, oid) })
-	VerifAssert(res[0] == res[1], "concurrent-reads-differ")
+	VerifShared(func(i int) string { return readWorkload(rd, key, oid) })
 	VerifCover("done")
 }
 
@@ -96,9 +94,7 @@ func Harness_C19_stack() {
 	m := st.Merged()
 	key := symString(VerifIntRange(0, 1))
 	oid := hashWith(20, 1, 1)
-	var res [2]string
 	VerifFreeze(m)
-	VerifShared(func(i int) { res[i] = readWorkload(m, key, oid) })
-	VerifAssert(res[0] == res[1], "concurrent-reads-differ")
+	VerifShared(func(i int) string { return readWorkload(m, key, oid) })
 	VerifCover("done")
 }
